@@ -233,7 +233,8 @@ class Table(Selectable):
         return not self.__eq__(other)
 
     def __hash__(self) -> int:
-        return hash(str(self))
+        # consistent with __eq__ (name, schema, alias); the temporal clause is not part of equality
+        return hash((self._table_name, self.alias))
 
     def select(self, *terms: Sequence[int | float | str | bool | Term | Field]) -> "QueryBuilder":
         """
